@@ -381,6 +381,43 @@ pub fn run(ctx: &Ctx, report: &mut Report) {
     ctx.cases(report, "roots", ctx.n(6_000, 300_000), |seed, rep| {
         root_case(rep, "roots", seed, 3);
     });
+    // a generated object (the sink's Payload: every primitive incl. a direct binary field, optionals, list, map keyed by
+    // doubles, enum, nested object, any) through the same wrappers: what it writes, both deserializers read back
+    ctx.cases(report, "generated", ctx.n(3_000, 100_000), |seed, rep| {
+        use crate::gen::sink::Payload;
+        let mut r = Rng::new(seed);
+        let v = crate::svc::gen_payload(&mut r);
+        let want = match json::to_string(&v) {
+            Ok(t) => t,
+            Err(e) => {
+                rep.violation("generated", seed, "generated/json:encode-error", json!({"error": e.to_string()}));
+                return;
+            }
+        };
+        let mut probe = |cell: &str, back: Result<Payload, String>| {
+            rep.evaluations += 1;
+            rep.cell(&format!("generated/{}", cell));
+            match back {
+                Err(e) => rep.violation("generated", seed, format!("generated/{}:decode-error", cell), json!({"document": trunc(&want), "error": e})),
+                Ok(b) => {
+                    // Conjure JSON text as value identity (C01 itself justifies it; `any` payloads change integer width in Smile)
+                    let got = json::to_string(&b).unwrap_or_default();
+                    if got != want {
+                        rep.violation("generated", seed, format!("generated/{}:value-mismatch", cell), json!({"written": trunc(&want), "read_back": trunc(&got)}));
+                    }
+                }
+            }
+        };
+        probe("json/client", json::client_from_str::<Payload>(&want).map_err(|e| e.to_string()));
+        probe("json/server", json::server_from_slice::<Payload>(want.as_bytes()).map_err(|e| e.to_string()));
+        match smile::to_vec(&v) {
+            Ok(b) => {
+                probe("smile/client", smile::client_from_slice::<Payload>(&b).map_err(|e| e.to_string()));
+                probe("smile/server", smile::server_from_reader::<_, Payload>(&b[..]).map_err(|e| e.to_string()));
+            }
+            Err(e) => rep.violation("generated", seed, "generated/smile:encode-error", json!({"error": e.to_string()})),
+        }
+    });
     if ctx.replay.is_none() {
         // every encoder x decoder x source cell
         report.floor_cells("json-cells", "json/", 4 * 7);
